@@ -502,15 +502,15 @@ impl Prop for P {
     fn plan(tier: Tier) -> Plan {
         match tier {
             Tier::Quick => Plan {
-                workers: 8,
-                cases_per_worker: 60,
+                workers: 16,
+                cases_per_worker: 150,
                 timeout_s: 1800,
                 max_shrink_iters: 60,
             },
             Tier::Thorough => Plan {
                 workers: 16,
-                cases_per_worker: 1200,
-                timeout_s: 10800,
+                cases_per_worker: 3000,
+                timeout_s: 14400,
                 max_shrink_iters: 60,
             },
         }
